@@ -25,7 +25,13 @@ TRUSTED = ['label encoding harness/locate_common.py (Python equality of labels =
            'fixed-frequency date_range spans they are ALSO compared, label by label, with the executable index model LocateIndex.reg_get_loc / '
            'reg_contains, and for every other duplicate-free pandas index with LocateIndex.plain_get_loc / plain_contains; locate_spec is proved for '
            'both models (so pandas is modelled and compared, not assumed; text labels on Period / Datetime indexes - partial-string lookups - stay recorded oracles)']
-ASSUMPTIONS = ['operand values already have the dtype of the series (the model moves data, it does not cast)',
+ASSUMPTIONS = ['operand values already have the dtype of the series in the Coq model (it moves data, it does not cast); NumPy\'s cast of a written value and its '
+               'identical read-back through every path are checked by the direct oracle on int64 / <U2 / bool / float32 series (op kind typed), not by K',
+               'documented exclusions, where the property\'s text fixes no behaviour (model mirrors the code, K compares, the direct oracle is silent): spans with a '
+               'REPEATED label (list / tuple / range: first occurrence; NumPy array: KeyError although present; open stop: first occurrence of the last label) '
+               'and spans containing the label None; negative and zero steps (K pins NumPy\'s behaviour incl. ValueError for step 0 - stricter than the property)',
+               'K is stricter than the property in two more places (a disagreement there is reported as no-failing-input-found): the identity of the stored array '
+               'after element writes, and exception classes on paths the property does not constrain',
                'pandas Index.get_loc on a duplicate-free index meets locate_spec (checked on every recorded answer)',
                'a label None cannot be used as a slice bound (Python reads it as an open end)']
 EXHAUSTIVE = {'quick': True, 'thorough': True}
@@ -586,7 +592,9 @@ def oracle(case, obs):
                     if out != ['ret', 'none']:
                         bad(site, 'write-rejected', 'obj[X, %s] = v raised %s' % (j, out))
                 elif out[0] == 'ret':
-                    exp_after = None
+                    # a sequence written to ONE period: if the code accepts it (NumPy does for a one-element sequence) the period
+                    # holds that element and nothing else changed; if it rejects it nothing changed (checked below)
+                    exp_after = written([p], {'scalar': op['w']['seq'][0]}, data) if len(op['w']['seq']) == 1 else None
         else:
             a, b, s = k['slice']
             e = expect_positions(a, b, s)
